@@ -72,6 +72,16 @@ func genC11(r *Rng) (coq []string, ops []rpOp, fails []MonitorFailure, stat map[
 	}
 	n := r.Range(1, maxPoints+8) // also beyond the window
 	ys := shareSeries(r, n)
+	if !poly && n >= 3 && r.Chance(1, 6) {
+		// linear predictor: a share that collapses - a steep fall whose fitted line reaches zero within days, and a
+		// last share that is positive but minute (the fall-back "distance divided by the last share" then asks
+		// for a day far beyond what a clearance date can hold)
+		for i := range ys {
+			ys[i] = ys[0] * float64(n-i) / float64(n)
+		}
+		ys[n-1] = []float64{1e-9, 1e-16, 1e-300, 4.9e-324}[r.Intn(4)]
+		stat["collapsing_share_histories"]++
+	}
 	constant := true
 	for _, y := range ys {
 		if y != ys[0] {
